@@ -1,4 +1,5 @@
 import Gnmi.Lemmas.CacheState
+import Gnmi.Lemmas.CacheFlags
 /-!
 # C14 — Reset/Remove clear exactly one target and announce it; targets are isolated
 
@@ -205,6 +206,24 @@ theorem reset_event_covers (T root : String) (rest : Path) (h : root ≠ "") :
   cases rest with
   | nil => simp [subIndex, h, qmatches, glob]
   | cons a k => simp [subIndex, h, qmatches, glob, remove_event_covers.qmatches_nil]
+
+/-- **Reset returns the metadata to its initial values**: after `Cache.Reset(T)` in any reachable
+state the target is not synced, not connected, has no address and no connection error, and its
+leaf counters are zero. -/
+theorem reset_initial_metadata (s : State) (hs : SInv s) (T : String) (now : Int) (t : Target)
+    (hg : s.get T = some t) :
+    ∃ t', (s.step enc (.reset T now)).1.get T = some t' ∧
+      t'.md.sync = false ∧ t'.md.connected = false ∧ t'.md.connectedAddr = "" ∧ t'.md.connectError = none ∧
+      t'.md.leaves = 0 ∧ t'.md.added = 0 ∧ t'.md.deleted = 0 ∧ t'.latest = none := by
+  obtain ⟨h1, h2, h3⟩ := hs T t hg
+  have hn : t.name ≠ "" := by rw [h2]; exact h3
+  obtain ⟨f1, f2, f3, f4⟩ := reset_flags s.cfg enc now t h1 hn
+  obtain ⟨_, _, c, _, e, f, g⟩ := reset_ok s.cfg enc now t h1 hn
+  refine ⟨(t.reset s.cfg enc now).1, ?_, f1, f2, f3, f4, e, f, g, c⟩
+  show (s.onTarget T (fun t => t.reset s.cfg enc now)).1.get T = _
+  unfold State.onTarget
+  rw [hg]
+  exact get_set_same _ _ _
 
 /-! ## Non-vacuity -/
 
